@@ -18,6 +18,7 @@ theorem serde_picture_roundtrip (ty : Ty) (v : Int) (hv : ty.Valid v) (now : Clo
     split at a
     · rename_i t h; cases a; exact h
     · cases a
+    · split at a <;> cases a
     · cases a
   · have c := c now
     unfold Serde.deStr at c
